@@ -182,7 +182,7 @@ def run_groups(run, groups: list[str], only=None) -> list[dict] | None:
             run.undecided.append(f"native groups {todo}: timeout")
             return None
         if p.returncode == 3 and '"hang"' in p.stdout:
-            # the real code did not return within 120 s on one input: a termination violation, with the input
+            # the real code did not return within 300 s on one input: a termination violation, with the input
             h = json.loads(p.stdout.strip().splitlines()[-1])["hang"]
             os.makedirs(os.path.join(VERIF, "replays"), exist_ok=True)
             path = os.path.join(VERIF, "replays", f"{run.prop}_{h['group']}_terminates.json")
